@@ -798,7 +798,7 @@ def aobj_member(f: Folder, obj: AObj, attr: str) -> Any:
     raise Unfoldable("%s has no member %s" % (obj._cls_.name, attr))
 
 
-TRIVIAL_DECORATORS = ("staticmethod", "classmethod", "property", "cached_property", "contextmanager", "abstractmethod", "setter", "overload", "lru_cache", "cache", "wraps", "override", "final")
+TRIVIAL_DECORATORS = ("staticmethod", "classmethod", "property", "cached_property", "contextmanager", "abstractmethod", "setter", "overload", "lru_cache", "cache", "wraps", "override", "final", "singledispatch", "register")
 
 
 def nontrivial_decorators(fn: Any) -> List[ast.expr]:
@@ -1027,8 +1027,77 @@ def set_public(o: AObj, **public: Any) -> AObj:
     return o
 
 
+def _dispatch_target(ctx: Any, fn: Any, args: Sequence[Any]) -> Any:
+    """`@functools.singledispatch`: the implementation registered for the class of the first argument (most specific class
+    first, as the MRO orders them), else the generic function itself"""
+    if not any(((dotted(d.func) if isinstance(d, ast.Call) else dotted(d)) or "").split(".")[-1] == "singledispatch" for d in fn.node.decorator_list) or not args:
+        return fn
+    repo = ctx.repo
+    regs: List[Any] = []  # (class value: ClassInfo | python type, implementation)
+    for f2 in repo.all_functions().values():
+        for d in f2.node.decorator_list:
+            target = d.func if isinstance(d, ast.Call) else d
+            if not (isinstance(target, ast.Attribute) and target.attr == "register"):
+                continue
+            try:
+                owner = repo.resolve_expr(f2.module, target.value, f2.cls)
+            except Exception:
+                owner = None
+            if owner is not fn:
+                continue
+            texpr: Any = d.args[0] if isinstance(d, ast.Call) and d.args else None
+            if texpr is None:
+                ps = f2.node.args.posonlyargs + f2.node.args.args
+                texpr = ps[0].annotation if ps else None
+            if texpr is None:
+                continue
+            try:
+                k = repo.resolve_expr(f2.module, texpr, f2.cls)
+            except Exception:
+                k = None
+            if isinstance(k, ClassInfo):
+                regs.append((k, f2))
+            elif type(k).__name__ == "External" and k.dotted.startswith("builtins."):
+                import builtins as _b
+
+                t = getattr(_b, k.dotted.split(".")[1], None)
+                if isinstance(t, type):
+                    regs.append((t, f2))
+            elif isinstance(texpr, ast.Call) and dotted(texpr.func) == "type" and texpr.args and isinstance(texpr.args[0], ast.Constant) and texpr.args[0].value is None:
+                regs.append((type(None), f2))
+    if not regs:
+        return fn
+    a0 = args[0]
+    matches = []
+    for k, f2 in regs:
+        if isinstance(k, type):
+            if not isinstance(a0, Abstract) and isinstance(a0, k):
+                matches.append((k, f2))
+        elif isinstance(a0, AObj):
+            if k in repo.mro(a0._cls_):
+                matches.append((k, f2))
+        elif isinstance(a0, Abstract) and isinstance(getattr(a0, "_isa_", None), (set, frozenset)):
+            if k.name in a0._isa_:
+                matches.append((k, f2))
+    if not matches:
+        if isinstance(a0, Abstract) and not isinstance(a0, AObj) and not isinstance(getattr(a0, "_isa_", None), (set, frozenset)):
+            raise Unfoldable("single dispatch of %s on an abstract value of unknown class" % fn.name)
+        return fn
+    # the most specific registered class: the one that is a subclass of all the other matching ones
+    best = matches[0]
+    for m in matches[1:]:
+        k0, k1 = best[0], m[0]
+        if isinstance(k0, ClassInfo) and isinstance(k1, ClassInfo):
+            if repo.is_subclass(k1, k0):
+                best = m
+        elif isinstance(k0, type) and isinstance(k1, type) and issubclass(k1, k0):
+            best = m
+    return best[1]
+
+
 def call_fn(ctx: Any, fn: Any, args: Sequence[Any], kwargs: Optional[Dict[str, Any]] = None, hook: Any = None, keep: Sequence[str] = ()) -> Any:
     """abstractly evaluate one repository function (private helpers expanded, `keep` names left to the hook) on the arguments"""
+    fn = _dispatch_target(ctx, fn, args)
     node = ctx.inl(fn, keep=tuple(keep))
     a = node.args
     params = [x.arg for x in a.posonlyargs + a.args]
